@@ -20,6 +20,7 @@ TEXT = ("Order-taint analysis over the whole crate. D1: every iteration whose or
         "writes replica state or storage is guarded by a query of an LRU cache (a hit is not evidence that the value is "
         "staged or stored). Does not decide "
         "equality of outcomes across runs as such - only the absence of order / capacity dependence.")
+TECHNIQUE = 'static analysis over rustc MIR: order-taint from unordered iterations to positional sinks, commutativity of effects in rayon regions, cache transparency (content-addressed keys, no cache query guarding a state change)'
 TRUSTED = ["rustc nightly MIR", "BTreeMap/BTreeSet iterate in key order", "C05/W3: Revision's order is total", "C10/H1: every copy of an object is hash-verified"]
 
 # frozen order-sensitive flows: key -> reason (one line each, confirmed by reading)
